@@ -164,7 +164,8 @@ POSITIONS = ["query-first", "query-later", "query-only", "path", "path-question"
              "host", "host-path", "bare", "no-scheme-host"]
 TARGETS = ["http://target.org/x", "https://target.org/x?a=b", "HTTPS://target.org", "target.org/x", "/x", "/", "/?u=/x",
            "/a/../b?next=/c", "//evil.com/x", "https://", "http://", "", "x", "./rel", "../up", "?only=query", "#frag",
-           "/x#f", "http://site.com/path", "/path", "https://t.co/?url=http://deep.org/"]
+           "/x#f", "http://site.com/path", "/path", "https://t.co/?url=http://deep.org/",
+           "https://cdn.ampproject.org/c/s/example.com/Story", "http://bc.marfeel.com/final.org/p", "/c/s/example.org/home", "https://x.cdn.ampproject.org/v/s/a.org/?u=/z"]
 
 
 def _enc(s, level):
